@@ -401,3 +401,15 @@ def contextual_expressions_native(B):
         if not (abs(got - w) <= 1e-13 * max(1.0, abs(w))):
             B.fail("equation with <...> expressions does not evaluate to rhs - lhs as written", {"equation": e.human, "got": got, "want": float(w)})
             return
+
+
+@contract("C04", targets=["irispie.parsers.models:_replace_underscores_by_hyphens"],
+          instances=[(a, b) for a, b in (("!transition_variables\n x_y, k_y\n", "!transition-variables\n x_y, k_y\n"), ("!log_variables !all_but\n c_1\n", "!log-variables !all-but\n c_1\n"),
+                                         ("k_y = a_b*k_y[-1] !!k_y = 1;", None), ("x = 1 !! x_a = 2;", None), ("!steady_autovalues\n x_y = 1;", "!steady-autovalues\n x_y = 1;"),
+                                         ("x_y = z_1 !!x_y = z_1{-1};\n!measurement_equations\n", "x_y = z_1 !!x_y = z_1{-1};\n!measurement-equations\n"))], cross=1)
+def keyword_aliases_do_not_touch_names(K, source, want):
+    """Underscores in KEYWORDS are an alias of hyphens (!transition_variables); underscores in NAMES are part of the name -
+    also when the name follows the steady-state separator `!!` without a blank (!!k_y = ... is the steady version of an
+    equation for k_y, not a keyword)."""
+    got = K.call(PM._replace_underscores_by_hyphens, source)
+    K.ensure("only keywords are rewritten", got == (source if want is None else want))
